@@ -271,6 +271,20 @@ pub fn vgrow_cases(t: bool) -> Vec<Case> {
             c.push(Case::VGrow { kind: 2, esz, n });
         }
     }
+    // kinds 5..=13: the same growth law through every other way of appending to a Vec (see VG_METHODS);
+    // kinds 20..=26: through every way of appending to a String
+    for &esz in sizes {
+        for kind in 5..5 + VG_METHODS.len() as u8 {
+            for n in [100u32, 1000, if t { 65536 } else { 16384 }] {
+                c.push(Case::VGrow { kind, esz, n });
+            }
+        }
+    }
+    for kind in 20..20 + SG_METHODS.len() as u8 {
+        for n in [100u32, 1000, if t { 65536 } else { 16384 }] {
+            c.push(Case::VGrow { kind, esz: 0, n });
+        }
+    }
     for n in (0..=64u32).chain([100, 1000, 4096, 5000]) {
         c.push(Case::VGrow { kind: 3, esz: 0, n });
     }
@@ -279,6 +293,9 @@ pub fn vgrow_cases(t: bool) -> Vec<Case> {
     }
     c
 }
+
+pub const VG_METHODS: [&str; 9] = ["extend_from_slice(1)", "extend_from_slice(3)", "extend(exact-size iterator of 3)", "extend(iterator without a size hint, 2)", "extend_from_slice_copy(3)", "extend_from_slices_copy(2+1)", "insert(0, x)", "resize(len + 3)", "append(vec of 2)"];
+pub const SG_METHODS: [&str; 7] = ["push(2-byte char)", "push(4-byte char)", "push_str(3 bytes)", "extend(chars)", "extend(strs)", "insert(0, 2-byte char)", "insert_str(1, 3 bytes)"];
 
 fn vgrow_typed<T: Copy + 'static>(envp: *mut ExecEnv, kind: u8, n: usize, val: T, v: &mut Vec<Violation>) -> u64 {
     let esz = std::mem::size_of::<T>();
@@ -311,6 +328,38 @@ fn vgrow_typed<T: Copy + 'static>(envp: *mut ExecEnv, kind: u8, n: usize, val: T
             }
             None
         }
+        5..=13 => {
+            // grow to n elements through one appending method; capacity changes must stay logarithmic
+            let mut vec: BVec<T> = BVec::new_in(&bump);
+            let mut reallocs = 0usize;
+            let mut last_cap = 0usize;
+            let bound = 2 * (n.max(1).ilog2() as usize) + 4;
+            let three = [val; 3];
+            while vec.len() < n {
+                match kind {
+                    5 => vec.extend_from_slice(&three[..1]),
+                    6 => vec.extend_from_slice(&three),
+                    7 => vec.extend(three.iter().copied()),
+                    8 => vec.extend(three.iter().copied().enumerate().filter(|(i, _)| *i != 1).map(|(_, x)| x)),
+                    9 => vec.extend_from_slice_copy(&three),
+                    10 => vec.extend_from_slices_copy(&[&three[..2], &three[..1]]),
+                    11 => vec.insert(0, val),
+                    12 => { let l = vec.len(); vec.resize(l + 3, val) }
+                    _ => { let mut o: BVec<T> = BVec::with_capacity_in(2, &bump); o.push(val); o.push(val); vec.append(&mut o) }
+                }
+                let c = vec.capacity();
+                if c != last_cap {
+                    if last_cap != 0 {
+                        reallocs += 1;
+                    }
+                    last_cap = c;
+                    if esz > 0 && reallocs > bound {
+                        return Some(format!("{} capacity changes on the way to {} of {} elements appended by {} (logarithmic bound {})", reallocs, vec.len(), n, VG_METHODS[kind as usize - 5], bound));
+                    }
+                }
+            }
+            None
+        }
         _ => {
             let mut vec: BVec<T> = BVec::new_in(&bump);
             let mut reallocs = 0usize;
@@ -339,12 +388,13 @@ fn vgrow_typed<T: Copy + 'static>(envp: *mut ExecEnv, kind: u8, n: usize, val: T
     match r {
         Ok(None) => h.u(1),
         Ok(Some(msg)) => {
-            let key = match kind {
-                0 => "reserved_capacity_not_stable/with_capacity_in",
-                1 => "reserved_capacity_not_stable/reserve",
-                _ => "vec_growth_not_geometric",
+            let key: String = match kind {
+                0 => "reserved_capacity_not_stable/with_capacity_in".into(),
+                1 => "reserved_capacity_not_stable/reserve".into(),
+                5..=13 => format!("vec_growth_not_geometric/{}", VG_METHODS[kind as usize - 5].split('(').next().unwrap()),
+                _ => "vec_growth_not_geometric".into(),
             };
-            push("vec_capacity", key.into(), format!("Vec<{} bytes> n={}: {}", esz, n, msg));
+            push("vec_capacity", key, format!("Vec<{} bytes> n={}: {}", esz, n, msg));
         }
         Err(p) => push("vec_capacity", "vec_capacity/panic".into(), format!("Vec<{} bytes> n={}: panicked {:?}", esz, n, p)),
     }
@@ -354,7 +404,46 @@ fn vgrow_typed<T: Copy + 'static>(envp: *mut ExecEnv, kind: u8, n: usize, val: T
 
 pub fn run_vgrow(envp: *mut ExecEnv, kind: u8, esz: u8, n: u32, v: &mut Vec<Violation>) -> u64 {
     let n = n as usize;
-    if kind >= 3 {
+    if kind >= 20 {
+        unsafe { (*envp).policy.cap = (*envp).slabs[0].size };
+        let bump: Bump = arena_op(envp, 0, 0, &[], Bump::new).unwrap();
+        unsafe { (*envp).begin_op(1, 0, &[]) };
+        let r = arena_op_cont(|| {
+            let mut s = BString::new_in(&bump);
+            let mut reallocs = 0usize;
+            let mut last = 0usize;
+            let bound = 2 * (n.max(1).ilog2() as usize) + 4;
+            while s.len() < n {
+                match kind {
+                    20 => s.push('é'),
+                    21 => s.push('😀'),
+                    22 => s.push_str("abc"),
+                    23 => s.extend(['a', 'é'].iter().copied()),
+                    24 => s.extend(["ab", "c"].iter().copied()),
+                    25 => s.insert(0, 'é'),
+                    _ => { if s.is_empty() { s.push('x') } s.insert_str(1, "abc") }
+                }
+                if s.capacity() != last {
+                    if last != 0 {
+                        reallocs += 1;
+                    }
+                    last = s.capacity();
+                    if reallocs > bound {
+                        return Some(format!("{} capacity changes on the way to {} of {} bytes appended by {} (logarithmic bound {})", reallocs, s.len(), n, SG_METHODS[kind as usize - 20], bound));
+                    }
+                }
+            }
+            None
+        });
+        match r {
+            Ok(None) => {}
+            Ok(Some(m)) => v.push(Violation { prop: 18, clause: "string_capacity", key: format!("string_growth_not_geometric/{}", SG_METHODS[kind as usize - 20].split('(').next().unwrap()), detail: format!("String n={}: {}", n, m), unsafe_mem: false }),
+            Err(p) => v.push(Violation { prop: 18, clause: "string_capacity", key: "string_capacity/panic".into(), detail: format!("{:?}", p), unsafe_mem: false }),
+        }
+        let _ = arena_op(envp, 2, 0, &[], move || drop(bump));
+        return kind as u64 * 1000 + n as u64 % 7;
+    }
+    if kind >= 3 && kind < 5 {
         unsafe { (*envp).policy.cap = (*envp).slabs[0].size };
         let bump: Bump = arena_op(envp, 0, 0, &[], Bump::new).unwrap();
         unsafe { (*envp).begin_op(1, 0, &[]) };
